@@ -178,7 +178,7 @@ Proof. vm_compute. split; reflexivity. Qed.
 (* ------------------------------------------------------------------------------------------------------
    Added in build session 4 (statements re-stated from the proof files by harness tooling; each is closed by
    exact). *)
-From SplipyModel Require Import Proofs.ObjEval Proofs.SeamContinuity Proofs.PeriodicInsert Proofs.PeriodicEndToEnd.
+From SplipyModel Require Import Proofs.ObjEval Proofs.SeamContinuity Proofs.PeriodicInsert Proofs.PeriodicEndToEnd Proofs.PeriodicInsertWrap.
 Open Scope R_scope.
 Theorem C04_periodic_boehm :
   forall K : nat -> R,
@@ -379,4 +379,174 @@ Theorem C04_periodic_change_of_basis_then_evaluate :
          wf_obj_R tol (Split.obj_along o d b2 M) /\ obj_eval tol (Split.obj_along o d b2 M) ts = obj_eval tol o ts.
 Proof. exact @periodic_change_dir_eval. Qed.
 Print Assumptions C04_periodic_change_of_basis_then_evaluate.
+
+Theorem C04_wrap_knot_spec :
+  forall (b : basis R) (x : R),
+         (1 <= b_per1 b)%nat ->
+         b_start b < b_end b ->
+         exists (x' : R) (m : Z),
+           wrap_knot b x = Ok x' /\
+           b_start b <= x' < b_end b /\
+           x' = x - IZR m * (b_end b - b_start b) /\
+           (b_start b <= x < b_end b -> x' = x) /\
+           (forall (y : R) (m' : Z), b_start b <= y < b_end b -> y = x - IZR m' * (b_end b - b_start b) -> y = x') /\
+           wrap_knot b x' = Ok x'.
+Proof. exact @wrap_knot_spec. Qed.
+Print Assumptions C04_wrap_knot_spec.
+
+Theorem C04_wrap_knot_open_spec :
+  forall (b : basis R) (x : R),
+         b_per1 b = 0%nat ->
+         (b_start b <= x <= b_end b -> wrap_knot b x = Ok x) /\
+         (x < b_start b \/ b_end b < x -> wrap_knot b x = Err ValueError).
+Proof. exact @wrap_knot_open_spec. Qed.
+Print Assumptions C04_wrap_knot_open_spec.
+
+Theorem C04_basis_insert_knot_wrap :
+  forall (b : basis R) (x : R),
+         (1 <= b_per1 b)%nat ->
+         b_start b < b_end b -> basis_insert_knot b x = basis_insert_knot b (wrapv (b_start b) (b_end b) x).
+Proof. exact @basis_insert_knot_wrap. Qed.
+Print Assumptions C04_basis_insert_knot_wrap.
+
+Theorem C04_basis_insert_knot_periodic_any :
+  forall (k : list R) (p per1 n : nat) (T x : R),
+         per_canon k p per1 n T ->
+         let b := {| b_order := p; b_knots := k; b_per1 := per1 |} in
+         let x' := wrapv (b_start b) (b_end b) x in
+         let mu := py_bisect_right k x' in
+         let C := mat_of_writes (n + 1) n (insert_writes k p n mu x') in
+         b_start b <= x' < b_end b /\
+         (exists m : Z, x' = x - IZR m * T) /\
+         (b_start b <= x < b_end b -> x' = x) /\
+         basis_insert_knot b x = basis_insert_knot b x' /\
+         (exists knew : list R,
+            basis_insert_knot b x = Ok ({| b_order := p; b_knots := knew; b_per1 := per1 |}, C) /\
+            per_canon knew p per1 (n + 1) T /\
+            b_start {| b_order := p; b_knots := knew; b_per1 := per1 |} = b_start b /\
+            b_end {| b_order := p; b_knots := knew; b_per1 := per1 |} = b_end b /\
+            firstn (n + 1) (skipn per1 knew) = insert_at (firstn n (skipn per1 k)) (mu - per1) x' /\
+            (forall (side : bool) (t : R),
+             after_start side (b_start b) t ->
+             before_end side t (b_end b) -> row_rel (ref_row side k p per1 0 t) (ref_row side knew p per1 0 t) C)).
+Proof. exact @basis_insert_knot_periodic_any. Qed.
+Print Assumptions C04_basis_insert_knot_periodic_any.
+
+Theorem C04_insert_knot_periodic_preserves_map_any :
+  forall (k : list R) (p per1 n : nat) (T x : R) (b' : basis R) (C : list (list R)),
+         per_canon k p per1 n T ->
+         basis_insert_knot {| b_order := p; b_knots := k; b_per1 := per1 |} x = Ok (b', C) ->
+         forall (dim c : nat) (side : bool) (t : R) (rows : list (list R)) (d : nat) (cps : list (list R)),
+         after_start side (b_start {| b_order := p; b_knots := k; b_per1 := per1 |}) t ->
+         before_end side t (b_end {| b_order := p; b_knots := k; b_per1 := per1 |}) ->
+         (d < length rows)%nat ->
+         (c < dim)%nat ->
+         nth d rows [] = ref_row side k p per1 0 t ->
+         net_ok dim rows cps ->
+         (0 < prodl (map (length (A:=R)) rows))%nat ->
+         coord c
+           (teval dim (upd rows d (ref_row side (b_knots b') (b_order b') (b_per1 b') 0 t))
+              (apply_dir dim (map (length (A:=R)) rows) d C cps)) = coord c (teval dim rows cps).
+Proof. exact @insert_knot_periodic_preserves_map_any. Qed.
+Print Assumptions C04_insert_knot_periodic_preserves_map_any.
+
+Theorem C04_insert_knot_periodic_eval_any :
+  forall (tol : R) (o : obj R) (d n : nat) (T x : R),
+         0 < tol ->
+         wf_obj_R tol o ->
+         (d < length (o_bases o))%nat ->
+         canon_dir o d n T ->
+         let bd := nth d (o_bases o) dflt_basis in
+         let x' := wrapv (b_start bd) (b_end bd) x in
+         b_start bd <= x' < b_end bd /\
+         (exists m : Z, x' = x - IZR m * T) /\
+         (b_start bd <= x < b_end bd -> x' = x) /\
+         obj_insert_knots o d [x] = obj_insert_knots o d [x'] /\
+         (exists o' : obj R,
+            obj_insert_knots o d [x] = Ok o' /\
+            wf_obj_R tol o' /\
+            canon_dir o' d (n + 1) T /\
+            length (o_bases o') = length (o_bases o) /\
+            (forall i : nat, i <> d -> nth i (o_bases o') dflt_basis = nth i (o_bases o) dflt_basis) /\
+            (let bd' := nth d (o_bases o') dflt_basis in
+             b_order bd' = b_order bd /\
+             b_per1 bd' = b_per1 bd /\
+             b_start bd' = b_start bd /\
+             b_end bd' = b_end bd /\
+             sorted (kn (b_knots bd')) /\
+             length (b_knots bd') = S (length (b_knots bd)) /\
+             (forall i : nat,
+              (i + (n + 1) < length (b_knots bd'))%nat -> kn (b_knots bd') (i + (n + 1)) = kn (b_knots bd') i + T) /\
+             In x' (b_knots bd') /\
+             (forall v : R, b_start bd <= v <= b_end bd -> In v (b_knots bd') <-> In v (b_knots bd) \/ v = x') /\
+             (forall ts : list R,
+              (forall i : nat, (i < length (o_bases o))%nat -> in_dom tol (nth i (o_bases o) dflt_basis) (nth i ts 0)) ->
+              snap1 (b_knots bd') tol (nth d ts 0) = snap1 (b_knots bd) tol (nth d ts 0) ->
+              obj_eval tol o' ts = obj_eval tol o ts) /\
+             (forall t : R,
+              b_start bd <= t <= b_end bd ->
+              param_ok_snap tol (b_knots bd) x' t -> snap1 (b_knots bd') tol t = snap1 (b_knots bd) tol t) /\
+             (forall ts : list R,
+              (forall i : nat, (i < length (o_bases o))%nat -> in_dom tol (nth i (o_bases o) dflt_basis) (nth i ts 0)) ->
+              b_start bd <= nth d ts 0 <= b_end bd ->
+              param_ok_snap tol (b_knots bd) x' (nth d ts 0) -> obj_eval tol o' ts = obj_eval tol o ts) /\
+             (forall ts : list R,
+              (forall i : nat, (i < length (o_bases o))%nat -> in_dom tol (nth i (o_bases o) dflt_basis) (nth i ts 0)) ->
+              (forall v : R, In v (b_knots bd) \/ In v (b_knots bd') -> tol <= Rabs (v - nth d ts 0)) ->
+              obj_eval tol o' ts = obj_eval tol o ts))).
+Proof. exact @insert_knot_periodic_eval_any. Qed.
+Print Assumptions C04_insert_knot_periodic_eval_any.
+
+Theorem C04_obj_insert_knots_wrap_list :
+  forall (tol : R) (d : nat),
+         0 < tol ->
+         forall (xs : list R) (o : obj R) (n : nat) (T : R),
+         wf_obj_R tol o ->
+         (d < length (o_bases o))%nat ->
+         canon_dir o d n T ->
+         let bd := nth d (o_bases o) dflt_basis in
+         obj_insert_knots o d xs = obj_insert_knots o d (map (wrapv (b_start bd) (b_end bd)) xs).
+Proof. exact @obj_insert_knots_wrap_list. Qed.
+Print Assumptions C04_obj_insert_knots_wrap_list.
+
+Theorem C04_insert_knots_periodic_eval_any :
+  forall (tol : R) (d : nat) (ts : list R),
+         0 < tol ->
+         forall (xs : list R) (o : obj R) (n : nat) (T : R),
+         wf_obj_R tol o ->
+         (d < length (o_bases o))%nat ->
+         canon_dir o d n T ->
+         let bd := nth d (o_bases o) dflt_basis in
+         let w := wrapv (b_start bd) (b_end bd) in
+         (forall x : R, In x xs -> param_ok_snap tol (b_knots bd) (w x) (nth d ts 0)) ->
+         (forall i : nat, (i < length (o_bases o))%nat -> in_dom tol (nth i (o_bases o) dflt_basis) (nth i ts 0)) ->
+         b_start bd <= nth d ts 0 <= b_end bd ->
+         (forall x : R, In x xs -> b_start bd <= w x < b_end bd /\ (exists m : Z, w x = x - IZR m * T)) /\
+         obj_insert_knots o d xs = obj_insert_knots o d (map w xs) /\
+         (exists o' : obj R,
+            obj_insert_knots o d xs = Ok o' /\
+            wf_obj_R tol o' /\
+            canon_dir o' d (n + length xs) T /\
+            obj_eval tol o' ts = obj_eval tol o ts /\
+            length (o_bases o') = length (o_bases o) /\
+            (forall i : nat, i <> d -> nth i (o_bases o') dflt_basis = nth i (o_bases o) dflt_basis) /\
+            (let bd' := nth d (o_bases o') dflt_basis in
+             b_order bd' = b_order bd /\ b_per1 bd' = b_per1 bd /\ b_start bd' = b_start bd /\ b_end bd' = b_end bd)).
+Proof. exact @insert_knots_periodic_eval_any. Qed.
+Print Assumptions C04_insert_knots_periodic_eval_any.
+
+Theorem C04_ex_insert_list_any :
+  forall t : R,
+         0 <= t <= 8 ->
+         1 / 1000 <= Rabs (9 / 2 - t) ->
+         1 / 1000 <= Rabs (1 / 2 - t) ->
+         1 / 1000 <= Rabs (15 / 2 - t) ->
+         1 / 1000 <= Rabs (5 / 2 - t) ->
+         exists o' : obj R,
+           obj_insert_knots ex_curve 0 [-23 / 2; 33 / 2; -1 / 2; 5 / 2] = Ok o' /\
+           obj_insert_knots ex_curve 0 [9 / 2; 1 / 2; 15 / 2; 5 / 2] = Ok o' /\
+           wf_obj_R (1 / 1000) o' /\
+           canon_dir o' 0 12 8 /\ obj_eval (1 / 1000) o' [t] = obj_eval (1 / 1000) ex_curve [t].
+Proof. exact @ex_insert_list_any. Qed.
+Print Assumptions C04_ex_insert_list_any.
 
